@@ -162,9 +162,13 @@ func opScenario(r *Run, mode string) {
 	tcfg := drawTriggerCfg(hdr)
 	desc := hdr.Chance(1, 2)
 	attrs := map[string]string{"node": opNames[op]}
+	// C18 only: a group-by keyed by a alone (no time column in the key) over a stream whose retractions carry
+	// their own, later event times (still above the source's watermark: no late data). A group can then be
+	// fired, a watermark can pass, and the group can shrink or vanish afterwards.
+	keyWithoutTime := mode == "C18" && opNames[op] == "custom_trigger_group_by" && !tcfg.watermark && hdr.Chance(1, 2)
 
 	script := GenChangelog(t.Block(stepBlock*maxSteps+10), ChangelogCfg{MaxSteps: maxSteps, Watermarked: watermarked, Retractions: true, Dups: true,
-		Row: opRow, FinalWM: true, RetractSameTime: true, ZeroTimeMix: true})
+		Row: opRow, FinalWM: true, RetractSameTime: !keyWithoutTime, ZeroTimeMix: true})
 	var lookupRows [][]octosql.Value
 	if opNames[op] == "lookup_join" {
 		lb := t.Block(20)
@@ -234,10 +238,18 @@ func opScenario(r *Run, mode string) {
 		if tcfg.watermark || hdr.Chance(1, 2) {
 			timeIdx = 1
 		}
-		node = nodes.NewCustomTriggerGroupBy(
-			[]func() nodes.Aggregate{aggregates.CountOverloads[0].Prototype, aggregates.SumOverloads[0].Prototype},
-			[]execution.Expression{varB, varB}, []execution.Expression{varA, varT}, timeIdx, src, tcfg.prototype(1))
-		want = refGroupBy(in, []int{0, 2}, 1)
+		if keyWithoutTime {
+			node = nodes.NewCustomTriggerGroupBy(
+				[]func() nodes.Aggregate{aggregates.CountOverloads[0].Prototype, aggregates.SumOverloads[0].Prototype},
+				[]execution.Expression{varB, varB}, []execution.Expression{varA}, -1, src, tcfg.prototype(1))
+			want = refGroupBy(in, []int{0}, 1)
+			attrs["key"] = "without_time"
+		} else {
+			node = nodes.NewCustomTriggerGroupBy(
+				[]func() nodes.Aggregate{aggregates.CountOverloads[0].Prototype, aggregates.SumOverloads[0].Prototype},
+				[]execution.Expression{varB, varB}, []execution.Expression{varA, varT}, timeIdx, src, tcfg.prototype(1))
+			want = refGroupBy(in, []int{0, 2}, 1)
+		}
 		attrs["trigger"] = tcfg.Kinds()
 	case "lookup_join":
 		recs := make([]execution.Record, len(lookupRows))
